@@ -910,6 +910,9 @@ impl Interpreter {
         use crate::compiler::Compiler;
         use bytecode_vm::BytecodeVM;
 
+        // A previous run may have failed or been abandoned by the host half-way through
+        self.reset_execution_state();
+
         // Set main module path if this is the entry point
         if self.main_module_path.is_none() {
             self.main_module_path = module_path.clone();
@@ -1288,11 +1291,19 @@ impl Interpreter {
             }
             VmStepResult::Terminal(vm_result) => {
                 // Terminal state - process and clear active execution state
-                let result = self.process_vm_result(*vm_result)?;
+                let result = match self.process_vm_result(*vm_result) {
+                    Ok(result) => result,
+                    Err(e) => {
+                        // Uncaught error: the run is over, nothing of it may stay installed
+                        self.reset_execution_state();
+                        return Err(e);
+                    }
+                };
 
                 // If not suspended (i.e., actually complete), finalize
                 if matches!(result, crate::StepResult::Complete(_)) {
                     self.finalize_active_execution();
+                    self.reset_execution_state();
                 }
 
                 Ok(result)
@@ -1366,6 +1377,21 @@ impl Interpreter {
         }
     }
 
+    /// Drop the transient execution state of a run that is over: one that completed, one that
+    /// ended in an uncaught error, or one the host simply stopped stepping. Between runs the
+    /// current environment is the global one and no scope guard or call-stack entry is alive;
+    /// anything else is a leftover that would leak into (and be visible from) the next program.
+    /// Suspended async contexts are unaffected: their saved state carries its own guards.
+    fn reset_execution_state(&mut self) {
+        self.active_vm = None;
+        self.active_saved_env = None;
+        self.active_module_env = None;
+        self.active_module_path = None;
+        self.env = self.global_env.cheap_clone();
+        self.env_guards.clear();
+        self.call_stack.clear();
+    }
+
     /// Finalize active execution (restore environment, finalize exports)
     fn finalize_active_execution(&mut self) {
         // Take state
@@ -1396,6 +1422,9 @@ impl Interpreter {
     ) -> Result<StepResult, JsError> {
         use crate::compiler::Compiler;
         use bytecode_vm::BytecodeVM;
+
+        // A previous run may have failed or been abandoned by the host half-way through
+        self.reset_execution_state();
 
         // Set main module path if this is the entry point
         if self.main_module_path.is_none() {
